@@ -4,12 +4,14 @@ import (
 	"fmt"
 	"strconv"
 	"strings"
+	"sync"
 	"testing"
 
 	"pgregory.net/rapid"
 	"verif/harness/gen"
 	"verif/harness/lexref"
 	"verif/harness/rep"
+	"verif/harness/run"
 )
 
 // C18 — command calls get exactly the given arguments; pipes and capture are exact.
@@ -32,6 +34,29 @@ var c18Args = []struct{ s, class string }{
 // reserved words of the shell that are ordinary identifiers in TypeShell
 var c18ShellWords = []string{"time", "until", "select", "function", "coproc", "then", "done", "fi", "in", "do", "elif", "esac", "while"}
 
+// c18Prelude defines and uses a user function and the string builtins, so that the script contains shell functions of its
+// own (the user function and helper routines); c18EmittedNames reads their names off the script. A PROGRAM may be called
+// like one of them: @name() still runs the program.
+const c18Prelude = "func fq() string {\n\treturn \"q\"\n}\nxq := fq()\nwq := \"abc\"\nyq := wq[1]\nzq := len(wq)\nprint(xq, yq, zq)\n"
+
+var c18EmittedOnce sync.Once
+var c18Emitted []string
+
+func c18EmittedNames() []string {
+	c18EmittedOnce.Do(func() {
+		tr := run.TranspileOne(c18Prelude, run.Bash)
+		if !tr.Accepted() {
+			return
+		}
+		for _, m := range reFuncDef.FindAllStringSubmatch(tr.Script, -1) {
+			if _, kw := lexref.Keywords[m[1]]; !kw {
+				c18Emitted = append(c18Emitted, m[1])
+			}
+		}
+	})
+	return c18Emitted
+}
+
 type c18Call struct {
 	probe   int
 	literal string // "": identifier form; else path literal
@@ -42,7 +67,7 @@ type c18Call struct {
 
 func TestC18(t *testing.T) {
 	r, e := start(t, "C18",
-		"programs calling probe executables: argument lists of 0-5 strings over the C08 classes (empty, blanks, glob, ~, {a,b}, ; & | > < # - quotes, parentheses, !, =, %, ^, @, tab, embedded newline, $, $(cmd), backquote, double quote, backslash), each given as literal, variable, concatenation, function result or run-time input; pipelines of 1-3 probes; exit statuses 0-255; calls as statements (output must reach stdout) and as o, e, c := / var o, e, c = / o, e, c = captures (output must not reach stdout); program names as identifiers (found on PATH; a quarter of them spelled like reserved words of the shell: time, until, select, function, done, fi, in ...) and as interpreted/raw string literal paths, also paths containing a blank, '*', ';' or a leading dash in a directory name. Oracle: each probe's argv log equals the intended argument list exactly; stdout composition proves the pipe order; captured output and status are exact; no stray file appears. Non-trivial = two or more arguments of different non-neutral classes, or a pipeline of >= 2 with a non-zero status; distinct by program + stdin.",
+		"programs calling probe executables: argument lists of 0-5 strings over the C08 classes (empty, blanks, glob, ~, {a,b}, ; & | > < # - quotes, parentheses, !, =, %, ^, @, tab, embedded newline, $, $(cmd), backquote, double quote, backslash), each given as literal, variable, concatenation, function result or run-time input; pipelines of 1-3 probes; exit statuses 0-255; calls as statements (output must reach stdout) and as o, e, c := / var o, e, c = / o, e, c = captures (output must not reach stdout); program names as identifiers (found on PATH; a quarter of them spelled like reserved words of the shell: time, until, select, function, done, fi, in ..., some like a shell function the script itself defines: the user's function or a helper routine, names read off the script) and as interpreted/raw string literal paths, also paths containing a blank, '*', ';' or a leading dash in a directory name. Oracle: each probe's argv log equals the intended argument list exactly; stdout composition proves the pipe order; captured output and status are exact; no stray file appears. Non-trivial = two or more arguments of different non-neutral classes, or a pipeline of >= 2 with a non-zero status; distinct by program + stdin.",
 		[]string{"arguments containing $, backquote, double quote or backslash are supplied through input() or variables read at run time (as source literals they fall under the listed C08 finding)", "probe output never ends in an empty line (capture removes trailing newlines by definition)", "Bash target only"})
 	defer r.Flush()
 	_ = e
@@ -56,6 +81,7 @@ func TestC18(t *testing.T) {
 		expOut := ""
 		nprobe := 0
 		usedWord := map[string]bool{}
+		needPrelude := false
 		inputs := map[int]string{}
 		vars := map[int]string{}
 		classes := map[string]bool{}
@@ -119,6 +145,15 @@ func TestC18(t *testing.T) {
 						usedWord[w] = true
 						name = w
 						r.Class("program-named-like-shell-word")
+					}
+				} else if em := c18EmittedNames(); len(em) > 0 && gen.Uniform(0, 5).Draw(t, "emitted-function-name") == 0 {
+					// ... or like a shell function the script itself defines (the user's function or a helper routine)
+					w := em[gen.Uniform(0, len(em)-1).Draw(t, "emitted-name")]
+					if !usedWord[w] {
+						usedWord[w] = true
+						name = w
+						needPrelude = true
+						r.Class("program-named-like-emitted-function")
 					}
 				}
 				status := []int{0, 0, 0, 1, 2, 7, 42, 127, 255}[gen.Uniform(0, 8).Draw(t, "status")]
@@ -209,6 +244,10 @@ func TestC18(t *testing.T) {
 			bodyText = fb.String()
 		}
 		src := decl.String() + bodyText
+		if needPrelude {
+			src = c18Prelude + src
+			expOut = "q b 3\n" + expOut
+		}
 		c := execCase{Kind: "bash-run", Property: "C18", Files: map[string]string{"main.tsh": src}, Main: "main.tsh", Stdin: stdin, Exec: exec,
 			ExpectStdout: expOut, ExpectStatus: 0, ExpectFS: expLogs, CheckFS: true, Env: []string{"PATH={BOX}/bin"}}
 		r.Eval()
